@@ -7,7 +7,7 @@ security contexts arrive on one session (src/coap_oscore.c):
     its position in the store); `session->recipient_ctx = rcp_ctx` ("to be used for encryption of returned response
     later" — it is NOT: see below); after the replay check, AAD and nonce are computed and the AEAD runs; a request
     that does not verify (or whose plaintext does not parse) leaves through `error:` with the associations
-    untouched.  Only then (fix 9631fdc: before, this block sat in front of the AEAD) "Set up an association for use in
+    untouched.  Only then (fix b3c6528: before, this block sat in front of the AEAD) "Set up an association for use in
     the response, now that the request is verified": `oscore_find_association(session, &pdu_token)`; found:
     `nonce`, `partial_iv`, `aad` replaced and `association->recipient_ctx = rcp_ctx` (`is_observe` untouched); not
     found: `oscore_new_association(session, NULL, &pdu_token, rcp_ctx, aad, nonce, partial_iv, 0)`.  When the
@@ -17,7 +17,7 @@ security contexts arrive on one session (src/coap_oscore.c):
     rcp_ctx->osc_ctx; snd_ctx = osc_ctx->sender_context` — Sender Key, Sender ID, Common IV and Sender Sequence Number
     of the response are those of the ASSOCIATION's context; `session->recipient_ctx` is only read for requests.
     `if (association->is_observe && !doing_observe && send_partial_iv == OSCORE_SEND_NO_IV) send_partial_iv =
-    OSCORE_SEND_PARTIAL_IV;` (fix ae365ed), then the Partial IV / fresh nonce / `oscore_increment_sender_seq` branch
+    OSCORE_SEND_PARTIAL_IV;` (fix 155f0b4), then the Partial IV / fresh nonce / `oscore_increment_sender_seq` branch
     is taken `if (coap_request || doing_observe || send_partial_iv == OSCORE_SEND_PARTIAL_IV)`, else `association->nonce`
     is used.  After the response has been built: `if (association->is_observe == 0) oscore_delete_association()`.
 
@@ -46,7 +46,7 @@ def findSAssoc (as : List SAssoc) (t : Bytes) : Option SAssoc := List.find? (fun
 
 /-- `coap_oscore_decrypt_pdu` for a request with token `t` for which `oscore_find_context` returned `pos` and the
 replay check passed; `verified` = the AEAD accepted and the plaintext parsed, `observe` = the plaintext carries Observe.
-`session->recipient_ctx` is assigned before the AEAD runs, the association is touched after it (fix 9631fdc). -/
+`session->recipient_ctx` is assigned before the AEAD runs, the association is touched after it (fix b3c6528). -/
 def srvDecrypt (s : Srv) (t : Bytes) (pos : RPos) (aad nonce piv : Bytes) (verified observe : Bool) : Srv :=
   if !verified then ⟨some pos, s.as⟩ else
   let as1 :=
@@ -62,7 +62,7 @@ def srvResponseCtx (s : Srv) (t : Bytes) : Option RPos := (findSAssoc s.as t).ma
 
 /-- does `coap_oscore_new_pdu_encrypted_lkd` take the Partial IV / fresh nonce / `oscore_increment_sender_seq` branch for
 a response with token `t`?  `doingObserve`: the response carries Observe; `ask`: `send_partial_iv == OSCORE_SEND_PARTIAL_IV`
-on entry.  `none`: no association, the function fails.  (fix ae365ed: `association->is_observe` forces it) -/
+on entry.  `none`: no association, the function fails.  (fix 155f0b4: `association->is_observe` forces it) -/
 def srvOwnPiv (s : Srv) (t : Bytes) (doingObserve ask : Bool) : Option Bool :=
   (findSAssoc s.as t).map fun a =>
     let ask' := if a.isObserve && !doingObserve && !ask then true else ask
